@@ -653,41 +653,71 @@ def F7(m, R):
     # dispatch chain
     chain = None
     for n in f.walk():
-        if isinstance(n, ast.If) and isinstance(n.test, ast.Compare) and 'AnsiParamEffectFn' in norm(n.test) and not (
-                isinstance(n._parent, ast.If) and n in n._parent.orelse):
+        if isinstance(n, ast.If) and 'AnsiParamEffectFn' in norm(n.test) and not (isinstance(n._parent, ast.If) and n in n._parent.orelse):
             chain = n
     if chain is None:
         raise AnalysisError('anchor vanished: dispatch on the effect function')
-    fnvar = norm(chain.test.left)
+    cmp0 = next((x for x in ast.walk(chain.test) if isinstance(x, ast.Compare) and 'AnsiParamEffectFn' in norm(x)), None)
+    fnvar = norm(cmp0.left) if cmp0 is not None else None
     members = list(F.enum('AnsiParamEffectFn').members)
-    # which arm runs for each member: walk the chain evaluating == / != / is / is not against the member
+
+    def tri(t, mem):
+        """three-valued: the comparison of the function variable with a member is decided, anything else is unknown"""
+        if isinstance(t, ast.BoolOp):
+            vs = [tri(x, mem) for x in t.values]
+            if isinstance(t.op, ast.And):
+                return False if False in vs else (None if None in vs else True)
+            return True if True in vs else (None if None in vs else False)
+        if isinstance(t, ast.UnaryOp) and isinstance(t.op, ast.Not):
+            v = tri(t.operand, mem)
+            return None if v is None else not v
+        if isinstance(t, ast.Compare) and len(t.ops) == 1 and norm(t.left) == fnvar and isinstance(t.ops[0], (ast.Eq, ast.Is, ast.NotEq, ast.IsNot)):
+            try:
+                ref = F.fold(t.comparators[0])
+            except Unfoldable:
+                return None
+            if isinstance(ref, EnumRef):
+                return (ref.name == mem) if isinstance(t.ops[0], (ast.Eq, ast.Is)) else (ref.name != mem)
+        return None
+    # which arm(s) can run for each member; a test with a further condition may send the member down the chain as well
     arms = {}
+    reach = {}           # member -> list of (body, residual condition text or None)
     else_members = []
     for mem in members:
         cur = chain
-        body = None
+        poss = []
         while cur is not None:
-            t = cur.test
-            try:
-                ref = F.fold(t.comparators[0]) if isinstance(t, ast.Compare) and len(t.ops) == 1 else None
-            except Unfoldable:
-                ref = None
-            if not (isinstance(ref, EnumRef) and norm(t.left) == fnvar and isinstance(t.ops[0], (ast.Eq, ast.Is, ast.NotEq, ast.IsNot))):
-                R.undecided(f, cur, 'dispatch test %s' % short(t), construct='dispatch')
-                return
-            truth = (ref.name == mem) if isinstance(t.ops[0], (ast.Eq, ast.Is)) else (ref.name != mem)
-            if truth:
-                body = cur.body
-                break
+            v = tri(cur.test, mem)
+            if v is not False:
+                resid = None
+                if v is None:
+                    if not any(isinstance(x, ast.Compare) and norm(x.left) == fnvar for x in ast.walk(cur.test)):
+                        R.undecided(f, cur, 'dispatch test %s' % short(cur.test), construct='dispatch')
+                        return
+                    resid = short(cur.test)
+                poss.append((cur.body, resid))
+                if v is True:
+                    break
             if len(cur.orelse) == 1 and isinstance(cur.orelse[0], ast.If):
                 cur = cur.orelse[0]
             else:
-                body = cur.orelse
-                else_members.append(mem)
+                poss.append((cur.orelse, None))
+                if not any(r_ is None and b_ is not cur.orelse for b_, r_ in poss[:-1]):
+                    else_members.append(mem)
                 cur = None
-        arms[mem] = body or []
-    if len(else_members) > 1:
-        R.viol(f, chain, 'the else arm stands for %d members %s' % (len(else_members), else_members), construct='dispatch exhaustive')
+        reach[mem] = poss
+        arms[mem] = poss[0][0] if poss else []
+    sure_else = [mem for mem in members if len(reach[mem]) == 1 and reach[mem][0][1] is None and mem in else_members]
+    if len(sure_else) > 1:
+        R.viol(f, chain, 'the else arm stands for %d members %s' % (len(sure_else), sure_else), construct='dispatch exhaustive')
+    for mem in members:
+        if len(reach[mem]) > 1:
+            first_body, resid = reach[mem][0]
+            others = [b_ for b_, _ in reach[mem][1:] if b_ is not first_body]
+            if others:
+                other_mem = next((k for k in members if k != mem and reach[k] and reach[k][0][0] is others[-1]), None)
+                R.viol(f, chain, 'a %s setting for which `%s` does not hold is not handled by its own arm: it falls through to %s' % (
+                    mem, resid, ('the arm of %s' % other_mem) if other_mem else 'another arm'), construct='dispatch exhaustive')
     from .T import fn_roles
     # roles by name here (fn_roles reads them off this very function)
     role = {}
